@@ -199,14 +199,26 @@ theorem sumAdd_refines (a b r : Op α) (h : sumAdd a b = .ok r) (i j : Nat) :
   · cases h
     simp [denote, denoteL_append, denoteL_sumOps, denoteL]
 
-theorem kronAdd_refines (a b r : Op α) (h : add.kronAdd a b = .ok r) (i j : Nat) :
+theorem DiagArg.toOp_denote (n : Nat) (g : DiagArg α) (i j : Nat) (hi : i < n) :
+    (g.toOp n).denote i j = if i = j then g.fn i else 0 := by
+  cases g with
+  | full d =>
+    by_cases h1 : n = 1
+    · have h0 : i = 0 := by omega
+      subst h0
+      by_cases hj : 0 = j <;> simp [DiagArg.toOp, DiagArg.fn, denote, h1, hj]
+    · by_cases hj : i = j <;> simp [DiagArg.toOp, DiagArg.fn, denote, h1, hj]
+  | const c => simp [DiagArg.toOp, DiagArg.fn, denote]
+  | scalar c => simp [DiagArg.toOp, DiagArg.fn, denote]
+
+theorem kronAdd_refines (a b r : Op α) (h : add.kronAdd a b = .ok r) (i j : Nat) (hi : i < a.rows) :
     r.denote i j = a.denote i j + b.denote i j := by
   unfold add.kronAdd at h
   split_ifs at h with h1 h2 h3 h4
   · exact mkAddedDiag_refines _ _ _ _ h i j
   · cases h; simp [denote]
-  · rw [mkAddedDiag_refines _ _ _ _ h, denote_of_isDiag b h3]
-    simp [denote]
+  · rw [mkAddedDiag_refines _ _ _ _ h, denote_of_isDiag b h3, DiagArg.toOp_denote _ _ _ _ hi]
+    simp [DiagArg.fn]
   · exact baseAdd_refines _ _ _ h i j
 
 
@@ -226,7 +238,7 @@ theorem map_ok {ε β γ : Type} (x : Except ε β) (f : β → γ) (r : γ) (h 
   | error e => cases h
   | ok y => cases h; exact ⟨y, rfl, rfl⟩
 
-theorem add_refines (a b r : Op α) (h : add a b = .ok r) (i j : Nat) :
+theorem add_refines (a b r : Op α) (h : add a b = .ok r) (i j : Nat) (hi : i < a.rows) :
     r.denote i j = a.denote i j + b.denote i j := by
   fun_induction add a b generalizing r
   all_goals first
@@ -234,23 +246,19 @@ theorem add_refines (a b r : Op α) (h : add a b = .ok r) (i j : Nat) :
     | exact baseAdd_refines _ _ _ h i j
     | exact diagAdd_refines _ _ _ h i j
     | exact sumAdd_refines _ _ _ h i j
-    | exact kronAdd_refines _ _ _ h i j
+    | exact kronAdd_refines _ _ _ h i j hi
     | exact mkAddedDiag_refines _ _ _ _ h i j
     | (obtain ⟨y, h1, rfl⟩ := map_ok _ _ _ h
        first
         | (rw [mkTri_refines, mkAddedDiag_refines _ _ _ _ h1]; simp [denote]; done)
-        | (rename_i ih; rw [mkTri_refines, ih _ h1]; simp [denote]; done))
+        | (rename_i ih; rw [mkTri_refines, ih _ h1 (by simpa [rows] using hi)]; simp [denote]; done))
     | (obtain ⟨y, h1, h2⟩ := bind_ok _ _ _ h
        first
         | (rw [mkAddedDiag_refines _ _ _ _ h2, diagAdd_refines _ _ _ h1]; simp [denote, add_assoc, add_comm, add_left_comm]; done)
-        | (rename_i ih; rw [mkAddedDiag_refines _ _ _ _ h2, ih _ h1]; simp [denote, add_assoc, add_comm, add_left_comm]; done))
-    | (rename_i ih; rw [ih _ h]; simp [denote]; done)
+        | (rename_i ih; rw [mkAddedDiag_refines _ _ _ _ h2, ih _ h1 (by simpa [rows] using hi)]; simp [denote, add_assoc, add_comm, add_left_comm]; done))
+    | (rename_i ih; rw [ih _ h (by simpa [rows] using hi)]; simp [denote]; done)
 
 /-! ### add_diagonal / add_jitter -/
-
-theorem DiagArg.toOp_denote (n : Nat) (g : DiagArg α) (i j : Nat) :
-    (g.toOp n).denote i j = if i = j then g.fn i else 0 := by
-  cases g <;> simp [DiagArg.toOp, DiagArg.fn, denote]
 
 theorem diagAddDiagonal_refines (a r : Op α) (g : DiagArg α) (h : diagAddDiagonal a g = .ok r) (i j : Nat) :
     r.denote i j = a.denote i j + (if i = j then g.fn i else 0) := by
@@ -260,19 +268,20 @@ theorem diagAddDiagonal_refines (a r : Op α) (g : DiagArg α) (h : diagAddDiago
   rw [denote_of_isDiag a ha]
   by_cases hij : i = j <;> simp [denote, hij]
 
-theorem addDiagonal_refines (a r : Op α) (g : DiagArg α) (h : addDiagonal a g = .ok r) (i j : Nat) :
+theorem addDiagonal_refines (a r : Op α) (g : DiagArg α) (h : addDiagonal a g = .ok r) (i j : Nat)
+    (hi : i < a.rows) :
     r.denote i j = a.denote i j + (if i = j then g.fn i else 0) := by
   fun_induction addDiagonal a g generalizing r
   all_goals first
     | (cases h <;> simp [denote] <;> done)
     | exact diagAddDiagonal_refines _ _ _ h i j
-    | (rw [mkAddedDiag_refines _ _ _ _ h, DiagArg.toOp_denote]; done)
+    | (rw [mkAddedDiag_refines _ _ _ _ h, DiagArg.toOp_denote _ _ _ _ hi]; done)
     | (obtain ⟨y, h1, rfl⟩ := map_ok _ _ _ h
-       rename_i ih; rw [mkTri_refines, ih _ h1]; simp [denote]; done)
+       rename_i ih; rw [mkTri_refines, ih _ h1 (by simpa [rows] using hi)]; simp [denote]; done)
     | (obtain ⟨y, h1, h2⟩ := bind_ok _ _ _ h
        rw [mkAddedDiag_refines _ _ _ _ h2, diagAddDiagonal_refines _ _ _ h1]; simp [denote, add_assoc]; done)
 
-theorem addJitter_refines (a r : Op α) (c : α) (h : addJitter a c = .ok r) (i j : Nat) :
+theorem addJitter_refines (a r : Op α) (c : α) (h : addJitter a c = .ok r) (i j : Nat) (hi : i < a.rows) :
     r.denote i j = a.denote i j + (if i = j then c else 0) := by
   unfold addJitter at h
   split at h
@@ -282,7 +291,7 @@ theorem addJitter_refines (a r : Op α) (c : α) (h : addJitter a c = .ok r) (i 
     · subst hij; simp
     · have : ¬ (if j ≤ i then i - j else j - i) = 0 := by split_ifs <;> omega
       simp [hij, this]
-  · simpa [DiagArg.fn] using addDiagonal_refines _ _ _ h i j
+  · simpa [DiagArg.fn] using addDiagonal_refines _ _ _ h i j hi
 
 /-! ### matmul with an operator -/
 
